@@ -405,7 +405,9 @@ class Simplex:
                         self.nbasic_basic[var_name].add(s)        
             
                     if var_name not in self.mapping:
-                        self.mapping.update({var_name : Pair(0, 0), s : Pair(0, 0)})
+                        self.mapping[var_name] = Pair(0, 0)
+                    if s not in self.mapping:
+                        self.mapping[s] = Pair(0, 0)
                     self.bound[s] = (Pair(-math.inf, 0), Pair(math.inf, 0))
                     if var_name not in self.bound:
                         self.bound[var_name] = (Pair(-math.inf, 0), Pair(math.inf, 0))
@@ -470,7 +472,9 @@ class Simplex:
                     self.basic.add(s)
                     self.non_basic.add(var_name)
                     if var_name not in self.mapping:
-                        self.mapping.update({var_name : Pair(0, 0), s : Pair(0, 0)})
+                        self.mapping[var_name] = Pair(0, 0)
+                    if s not in self.mapping:
+                        self.mapping[s] = Pair(0, 0)
                     self.bound[s] = (Pair(-math.inf, 0), Pair(math.inf, 0))
                     if var_name not in self.nbasic_basic:
                         self.nbasic_basic[var_name] = {s}
